@@ -165,6 +165,9 @@ func (s *State) get(k HeapKey) string {
 			// the watermark at a loop head: unknown, but not below its value before the loop
 			t = s.c.declare(fmt.Sprintf("%s@L%d", k.Name, s.epoch), k.Sort)
 			s.c.axiom(fmt.Sprintf("(>= %s %s)", t, s.entry.get(k)), t)
+		} else if strings.HasPrefix(k.Name, "G_calls_") && !s.mod[k.Name] {
+			// the verifier's own call counters: only a counted call inside the loop moves them, unknown code cannot
+			t = s.entry.get(k)
 		} else if s.modAll || s.mod[k.Name] {
 			t = s.c.declare(fmt.Sprintf("%s@L%d", k.Name, s.epoch), k.Sort)
 			s.c.byteHeapAxiom(k, t, false)
